@@ -292,6 +292,11 @@ func budgets(c *hk.Ctx) (scenarios, total time.Duration) {
 	return 90 * time.Second, 130 * time.Second
 }
 
+// componentDeadline: no special script (and no step of the multi-step ones) is started after it.
+var componentDeadline time.Time
+
+func outOfTime() bool { return !componentDeadline.IsZero() && time.Now().After(componentDeadline) }
+
 // afterConfirmedHang: how many more scenarios of a class are run (with short ceilings) after a hang of that class has been
 // confirmed; the rest of the class is skipped (every one of them would cost its ceiling and show the same thing).
 const afterConfirmedHang = 3
@@ -303,6 +308,7 @@ func run(c *hk.Ctx) {
 	}
 	t0 := time.Now()
 	scenBudget, totalBudget := budgets(c)
+	componentDeadline = t0.Add(totalBudget)
 	// warm up: the first client of a process creates runtime-internal goroutines that would otherwise count as a difference
 	warm := scen{T: "streamJson", Framing: "length", N: 1, Fault: "none", Pos: "frameEnd", Ctx: "none"}
 	runHTTP(warm)
